@@ -246,5 +246,285 @@ def rule_edge(ctx):
     return res.finish(3)
 
 
+# ---------------------------------------------------------------------------------------------------------
+# R-C07-degree: homogeneity degree of the provided metrics (dimensional analysis of the Distance impls).
+# A metric induced by a norm satisfies d(t*a, t*b) = |t| * d(a, b): `distance` is homogeneous of degree 1 in the
+# coordinate differences; `rdistance` may have another degree r, and then rdist_to_dist must map degree r to 1 and
+# dist_to_rdist degree 1 to r. Degrees are c * p^e with p the exponent stored in LpDist (so |x|^p has degree p and
+# (.)^(1/p) brings it back to 1).
+from fractions import Fraction
+
+ANY = ("any",)          # additive zero / accumulator start: homogeneous of every degree
+DEG0 = (Fraction(0), 0)
+DEG1 = (Fraction(1), 0)
+STATS_DEG = {"l1_dist": Fraction(1), "l2_dist": Fraction(1), "linf_dist": Fraction(1), "sq_l2_dist": Fraction(2)}
+SAME_DEG = {"unwrap", "expect", "clone", "abs", "to_owned", "view", "iter", "into_iter", "sum", "reborrow", "copied", "cloned",
+            "max_value", "into_inner", "unwrap_or", "to_vec", "mean"}
+
+
+class DegError(Exception):
+    def __init__(self, kind, msg, ln=None):
+        Exception.__init__(self, msg)
+        self.kind, self.msg, self.ln = kind, msg, ln
+
+
+def deg_show(d):
+    if d == ANY:
+        return "any"
+    c, e = d
+    return "%s%s" % (c, "" if e == 0 else "*p^%d" % e)
+
+
+class DegEval:
+    def __init__(self, fn, impl_rdeg, env):
+        self.fn = fn
+        self.c = fn["crate"]
+        self.r = Render(self.c)
+        self.env = dict(env)
+        self.impl_rdeg = impl_rdeg
+        self.self_local = None
+        for p_ in fn["params"]:
+            if p_.get("k") == "Bind" and p_["name"] == "self":
+                self.self_local = p_["local"]
+
+    def unify(self, a, b, n, what):
+        if a == ANY:
+            return b
+        if b == ANY:
+            return a
+        if a == b:
+            return a
+        raise DegError("mixed-degree", "%s combines a quantity of degree %s with one of degree %s: `%s`" % (what, deg_show(a), deg_show(b), self.r.e(n)[:80]), n.get("ln"))
+
+    def scale(self, d, m):
+        """degree d raised to the power described by multiplier m = (Fraction, p-exponent)"""
+        if d == ANY:
+            return ANY
+        c_ = d[0] * m[0]
+        return (c_, d[1] + m[1] if c_ != 0 else 0)
+
+    def exponent(self, n):
+        """value of an exponent expression as (Fraction, p-exponent)"""
+        n = peel_refs(n)
+        k_ = n.get("k")
+        if k_ == "Lit":
+            try:
+                return (Fraction(re.sub(r"(_?[fiu](32|64|size))$", "", n["v"]).replace("_", "")), 0)
+            except (ValueError, ZeroDivisionError):
+                raise DegError("unclassified", "exponent `%s` is not understood" % self.r.e(n), n.get("ln"))
+        if k_ == "Field" and n["name"] == "0" and peel_refs(n["e"]).get("local") == self.self_local:
+            return (Fraction(1), 1)
+        if k_ == "Call":
+            d = self.c.dfn(strip(n["f"]).get("def")) if strip(n["f"]).get("k") == "Path" else None
+            nm = d["name"] if d else None
+            if nm == "one":
+                return (Fraction(1), 0)
+            if nm in ("cast", "from") and n["args"]:
+                return self.exponent(n["args"][0])
+        if k_ == "MethodCall" and n["name"] in ("unwrap", "recip"):
+            a = self.exponent(n["recv"])
+            if n["name"] == "recip":
+                if a[0] == 0:
+                    raise DegError("unclassified", "reciprocal of zero exponent", n.get("ln"))
+                return (1 / a[0], -a[1])
+            return a
+        if k_ == "Binary" and n["op"] in ("/", "*"):
+            a, b = self.exponent(n["l"]), self.exponent(n["r"])
+            if n["op"] == "*":
+                return (a[0] * b[0], a[1] + b[1])
+            if b[0] == 0:
+                raise DegError("unclassified", "division by a zero exponent", n.get("ln"))
+            return (a[0] / b[0], a[1] - b[1])
+        raise DegError("unclassified", "exponent `%s` is not understood" % self.r.e(n)[:60], n.get("ln"))
+
+    def closure(self, clo, param_degs):
+        clo = strip(clo)
+        if clo.get("k") != "Closure":
+            raise DegError("unclassified", "expected a closure: `%s`" % self.r.e(clo)[:60], clo.get("ln"))
+        saved = dict(self.env)
+        for i, p_ in enumerate(clo["params"]):
+            for b in pat_bindings(p_):
+                self.env[b["local"]] = param_degs[i] if i < len(param_degs) else param_degs[-1]
+        out = self.deg(clo["body"])
+        self.env = saved
+        return out
+
+    def deg(self, n):
+        n = strip(n)
+        k_ = n.get("k")
+        if k_ in ("Ref", "Cast"):
+            return self.deg(n["e"])
+        if k_ == "Unary":
+            return self.deg(n["e"])
+        if k_ == "Lit":
+            try:
+                v = float(re.sub(r"(_?[fiu](32|64|size))$", "", n["v"]).replace("_", ""))
+            except ValueError:
+                v = 1.0
+            return ANY if v == 0.0 else DEG0
+        if k_ == "Path":
+            if "local" in n:
+                if n["local"] in self.env:
+                    return self.env[n["local"]]
+                raise DegError("unclassified", "local `%s` has no known degree" % n.get("name"), n.get("ln"))
+            return DEG0
+        if k_ == "Field":
+            return DEG0      # a field of the metric itself (e.g. the exponent p): a constant w.r.t. the coordinates
+        if k_ == "Block":
+            for s_ in n["stmts"]:
+                s2 = strip(s_)
+                if s2.get("k") == "LetStmt" and s2.get("init") is not None:
+                    d = self.deg(s2["init"])
+                    for b in pat_bindings(s2["pat"]):
+                        self.env[b["local"]] = d
+                elif s2.get("k") in ("Ret",):
+                    raise DegError("unclassified", "early return", s2.get("ln"))
+            if n.get("e") is None:
+                raise DegError("unclassified", "block without a value", n.get("ln"))
+            return self.deg(n["e"])
+        if k_ == "If":
+            a = self.deg(n["then"])
+            if not n.get("else"):
+                raise DegError("unclassified", "if without else as a value", n.get("ln"))
+            b = self.deg(n["else"])
+            return self.unify(a, b, n, "the two branches of a conditional")
+        if k_ == "Match":
+            out = ANY
+            for a in n["arms"]:
+                out = self.unify(out, self.deg(a["body"]), n, "the arms of a match")
+            return out
+        if k_ == "Binary":
+            op = n["op"]
+            if op in ("+", "-"):
+                return self.unify(self.deg(n["l"]), self.deg(n["r"]), n, "a sum")
+            if op in ("*", "/"):
+                a, b = self.deg(n["l"]), self.deg(n["r"])
+                if a == ANY or b == ANY:
+                    if op == "/" and b == ANY:
+                        raise DegError("unclassified", "division by a zero constant", n.get("ln"))
+                    return ANY
+                sgn = 1 if op == "*" else -1
+                if a[0] == 0:
+                    return (sgn * b[0], b[1] if b[0] != 0 else 0)
+                if b[0] == 0:
+                    return a
+                if a[1] != b[1]:
+                    raise DegError("unclassified", "product of quantities with different p-dependence", n.get("ln"))
+                c_ = a[0] + sgn * b[0]
+                return (c_, a[1] if c_ != 0 else 0)
+            raise DegError("unclassified", "operator `%s` as a value" % op, n.get("ln"))
+        if k_ == "Call":
+            f = strip(n["f"])
+            d = self.c.dfn(f.get("def")) if f.get("k") == "Path" else None
+            nm = d["name"] if d else None
+            if nm == "zero":
+                return ANY
+            if nm in ("one", "epsilon", "max_value", "infinity"):
+                return DEG0
+            if nm in ("from", "cast", "Some", "Ok", "new") and n["args"]:
+                return self.deg(n["args"][0])
+            raise DegError("unclassified", "call of `%s` is not understood by the degree analysis" % (nm or self.r.e(f)[:40]), n.get("ln"))
+        if k_ == "MethodCall":
+            nm = n["name"]
+            d = self.c.dfn(n.get("def"))
+            tr = (d or {}).get("trait") or ""
+            if nm in STATS_DEG and d is not None and d["krate"] == "ndarray_stats":
+                a = self.unify(self.deg(n["recv"]), self.deg(n["args"][0]), n, "`%s`" % nm)
+                return self.scale(a, (STATS_DEG[nm], 0))
+            if tr.endswith("Distance") and nm == "distance":
+                self.unify(self.deg(n["args"][0]), self.deg(n["args"][1]), n, "`distance`")
+                return DEG1
+            if tr.endswith("Distance") and nm == "rdistance":
+                return self.impl_rdeg if self.impl_rdeg is not None else DEG1
+            if nm in SAME_DEG:
+                return self.deg(n["recv"])
+            if nm == "sqrt":
+                return self.scale(self.deg(n["recv"]), (Fraction(1, 2), 0))
+            if nm == "cbrt":
+                return self.scale(self.deg(n["recv"]), (Fraction(1, 3), 0))
+            if nm in ("powi", "powf") and n["args"]:
+                return self.scale(self.deg(n["recv"]), self.exponent(n["args"][0]))
+            if nm in ("and", "zip", "max", "min", "add", "sub") and n["args"]:
+                return self.unify(self.deg(n["recv"]), self.deg(n["args"][0]), n, "`%s`" % nm)
+            if nm in ("mul", "dot") and n["args"]:
+                a, b = self.deg(n["recv"]), self.deg(n["args"][0])
+                if a == ANY or b == ANY:
+                    return ANY
+                return (a[0] + b[0], max(a[1], b[1]))
+            if nm == "fold" and len(n["args"]) == 2:
+                rdeg = self.deg(n["recv"])
+                init = self.deg(n["args"][0])
+                body = self.closure(n["args"][1], [init, rdeg])
+                return self.unify(init, body, n, "`fold`")
+            if nm in ("map", "mapv", "mapv_into", "for_each") and n["args"]:
+                return self.closure(n["args"][0], [self.deg(n["recv"])])
+            raise DegError("unclassified", "method `%s` is not understood by the degree analysis" % nm, n.get("ln"))
+        raise DegError("unclassified", "expression kind %s is not understood by the degree analysis" % k_, n.get("ln"))
+
+
+def rule_degree(ctx):
+    res = RuleResult("R-C07-degree", "every provided metric is homogeneous of degree 1 in the coordinate differences; rdistance and the two conversions are consistent with one reduced degree")
+    F = ctx.facts()
+    NAMES = ("distance", "rdistance", "rdist_to_dist", "dist_to_rdist")
+    impls, defaults = {}, {}
+    for f in nn_fns(F):
+        d = f["d"]
+        if d["name"] not in NAMES:
+            continue
+        if d.get("pk") == "impl" and (d.get("trait") or "").endswith("Distance"):
+            impls.setdefault((d.get("self_adt") or d.get("self_ty") or "?").split("::")[-1], {})[d["name"]] = f
+        elif d.get("pk") != "impl" and d["path"].endswith("Distance::" + d["name"]):
+            defaults[d["name"]] = f
+    if len(impls) < 4:
+        res.missing_anchor("the four provided metrics L1Dist, L2Dist, LInfDist, LpDist (found %s)" % sorted(impls))
+    if len(defaults) < 3:
+        res.missing_anchor("the provided methods of trait Distance (found %s)" % sorted(defaults))
+
+    def params_of(f, names_deg):
+        env = {}
+        for p_ in f["params"]:
+            if p_.get("k") == "Bind" and p_["name"] != "self":
+                env[p_["local"]] = names_deg
+        return env
+
+    def check(label, f, env, want, rdeg):
+        key = "%s::%s" % (label, f["d"]["name"])
+        res.instance("%s : degree" % key)
+        try:
+            got = DegEval(f, rdeg, env).deg(f["body"])
+        except DegError as e:
+            res.violate("%s : %s" % (key, e.kind), e.msg, fn_loc(f, e.ln))
+            return None
+        if want is not None and got != want and got != ANY:
+            res.violate("%s : wrong-degree" % key,
+                        "`%s` has homogeneity degree %s where %s is required: scaling all coordinates by t does not scale the result as the other methods of this metric assume (e.g. a squared distance returned as a distance)" % (f["d"]["name"], deg_show(got), deg_show(want)), fn_loc(f))
+            return got
+        res.ok()
+        res.sample({"method": key, "degree": deg_show(got)})
+        return got
+
+    for name, ms in sorted(impls.items()):
+        if "distance" not in ms:
+            res.missing_anchor("%s::distance" % name)
+            continue
+        check(name, ms["distance"], params_of(ms["distance"], DEG1), DEG1, None)
+        rdeg = DEG1
+        if "rdistance" in ms:
+            got = check(name, ms["rdistance"], params_of(ms["rdistance"], DEG1), None, None)
+            rdeg = got if got not in (None, ANY) else None
+        for conv, src, dst in (("rdist_to_dist", rdeg, DEG1), ("dist_to_rdist", DEG1, rdeg)):
+            if conv in ms:
+                if src is None or dst is None:
+                    continue
+                check(name, ms[conv], params_of(ms[conv], src), dst, rdeg)
+            elif rdeg is not None and rdeg != DEG1:
+                res.instance("%s::%s : inherited identity" % (name, conv))
+                res.violate("%s::%s : identity-conversion" % (name, conv), "%s overrides rdistance with degree %s but inherits the identity `%s`" % (name, deg_show(rdeg), conv), fn_loc(ms["rdistance"]))
+    # provided methods of the trait: rdistance = distance, conversions are the identity
+    for nm, f in sorted(defaults.items()):
+        check("Distance(default)", f, params_of(f, DEG1), DEG1, DEG1)
+    return res.finish(10)
+
+
 def rules(tier):
-    return [rule_unit, rule_sib, rule_edge]
+    return [rule_unit, rule_sib, rule_edge, rule_degree]
